@@ -456,6 +456,29 @@ def oracle_solve(c, impl):
     return v
 
 
+def _rel_lt(den, a, b):
+    m = max(abs(a), abs(b))
+    return True if m == 0 else den * abs(a - b) < m
+
+
+def py_dedup(c, x, y):
+    """the dedup predicate of the case (x = later individual, y = earlier/retained one), same as zdedup in Model/Population.v"""
+    mode = c['cfg']['dedup'] if c['kind'] == 'elitism' else 5
+    if mode == 0:
+        return False
+    if mode == 1:
+        return x[2] == y[2]
+    if mode == 2:
+        return (x[2] + 2 * y[2]) % 3 == 0
+    if mode == 3:
+        return True
+    if mode == 4:
+        return _rel_lt(20, x[1], y[1])
+    if x[1] == y[1]:
+        return x[2] == y[2] if c['two'] else True
+    return _rel_lt(50, x[3], y[3])
+
+
 def oracle(c, impl):
     if c['kind'] == 'solve':
         return oracle_solve(c, impl)
@@ -475,11 +498,16 @@ def oracle(c, impl):
             v.append({'class': cls, 'what': what})
 
     offered = {}
+    info = {}
+    prev_ids = []
     if kind == 'greedy':
         for x in c['cfg']['best']:
             offered[x[0]] = x[1]
+            info[x[0]] = x
+            prev_ids = [x[0]]
     sel_cfg = c['cfg']['sel']
     slow = False
+    slow_r = 16
     prev_best = None
     lost_before = False
     size_before = False
@@ -492,8 +520,10 @@ def oracle(c, impl):
             batch = o['xs']
         for x in batch:
             offered[x[0]] = x[1]
+            info[x[0]] = x
         if o['op'] == 'gen' and kind == 'elitism':
             slow = (o['sp'] == 2)
+            slow_r = o['r']
         ranked = g['ranked']
         keys = [p[1] for p in ranked]
         where = 'op %d (%s)' % (k, o['op'])
@@ -526,14 +556,47 @@ def oracle(c, impl):
                     add('%s%s-best-lost-on-%s' % (kind, ph, cause),
                         '%s: best ranked %s is worse than offered minimum %d' % (where, keys[:1], m))
                 lost_before = True
+        # dedup: no neighbours of the ranking are twins; whatever left the population has a no-worse twin that stays,
+        # or the population is full of no-worse individuals (theorems C08_no_adjacent_twins / C08_*_twin_rule)
+        if kind != 'greedy' and all(p[0] in info for p in ranked):
+            now = [info[p[0]] for p in ranked]
+            if o['op'] in ('add', 'add_all'):
+                for a, b in zip(now, now[1:]):
+                    if py_dedup(c, b, a):
+                        add('%s%s-adjacent-twins-in-ranked' % (kind, ph), '%s: %s is ranked directly after its twin %s' % (where, b, a))
+                cands = [info[i] for i in prev_ids if i in info]
+                cands += [x for x in batch if kind == 'elitism' or prev_best is None or x[1] <= prev_best]
+                ids_now = set(y[0] for y in now)
+                for x in cands:
+                    if x[0] in ids_now:
+                        continue
+                    twin = any(y[1] <= x[1] and py_dedup(c, x, y) for y in now)
+                    full = len(now) == max_size(c) and all(y[1] <= x[1] for y in now)
+                    if not twin and not full:
+                        add('%s%s-dropped-without-better-survivor' % (kind, ph),
+                            '%s: %s left the population %s without a no-worse twin staying and without the population being full '
+                            'of no-worse individuals' % (where, x, now))
+            elif [y[0] for y in now] != prev_ids:
+                add('%s%s-ranked-changed-by-%s' % (kind, ph, o['op']), '%s: ranked changed from %s to %s' % (where, prev_ids, [y[0] for y in now]))
         # selection
         if o['op'] == 'select':
+            if ranked and (sel_cfg >= 1 or slow) and ranked[0] not in g['sel']:
+                add('%s%s-selection-without-best' % (kind, ph), '%s: selection %s does not contain the first ranked %s' % (where, g['sel'], ranked[0]))
+            if ranked and kind in ('greedy', 'elitism'):
+                # theorems C08_elitism_select_size / C08_greedy_select_size
+                want = max(1, (2 * sel_cfg * slow_r + 16) // 32) if slow else sel_cfg
+                if len(g['sel']) != want:
+                    add('%s-selection-size' % kind, '%s: %d individuals selected, selection size is %d' % (where, len(g['sel']), want))
+            if kind == 'rosomaxa' and g['phase'] == 0 and [p[0] for p in g['sel']] != list(offered.keys()):
+                add('rosomaxa-p0-selection-not-all-offered', '%s: initial-phase selection %s differs from the offered sequence %s' % (
+                    where, [p[0] for p in g['sel']], list(offered.keys())))
             for p in g['sel']:
                 if offered.get(p[0]) != p[1]:
                     add('%s%s-selected-not-offered' % (kind, ph), '%s: selected %s was never offered' % (where, p))
             if g['size'] > 0 and not g['sel'] and (sel_cfg >= 1 or slow):
                 add('%s%s-select-empty' % (kind, ph), '%s: nothing selected from a population of size %d' % (where, g['size']))
         prev_best = keys[0] if keys else None
+        prev_ids = [p[0] for p in ranked]
     return v
 
 
@@ -611,7 +674,9 @@ MANIFEST_TEXT = ('Machine-checked proof (Coq, no axioms) over an executable mode
                  'configuration, the first ranked individual is no worse than every offered one (all three populations; the '
                  'Greedy::add_all short-circuit the model used to refute was repaired in 646d0ea), ranked is sorted, size <= configured bound, selections are '
                  'offered individuals and non-empty when the population is, phases only move forward, and the evolution loop seeded through '
-                 'add never ends with a worse head. The model is tied to /repo on every run: the same histories run through the real '
+                 'add never ends with a worse head (no worse than every initial solution and every offspring); further: the head is an offered minimum and '
+                 'monotone, selections contain it and have the configured size, no ranked neighbours are twins and whatever is dropped has a no-worse twin '
+                 'that stays (or the population is full of no-worse individuals). The model is tied to /repo on every run: the same histories run through the real '
                  'populations via the public HeuristicPopulation trait (integer-keyed solution type, scripted Random) and through the model '
                  'inside Coq (vm_compute); ranked ids, phase and selections are diffed after every operation and the property is '
                  'evaluated directly on the implementation output.')
